@@ -566,3 +566,39 @@ def validate(traces: list, timeout: int = 1200):
         if isinstance(p, dict) and "verdicts" in p:
             rep = p
     return res, rep
+
+
+def harvest_repo_save_calls(paths=("tests/test_document.py", "tests/test_document_add_file.py", "tests/test_document_blob.py", "tests/test_document_template.py",
+                                  "tests/test_document_xml.py", "tests/test_container.py", "tests/test_image.py", "tests/test_use_case1.py",
+                                  "tests/test_use_case2.py", "tests/test_use_case3.py", "tests/test_manifest.py", "tests/test_meta.py"), timeout=1200):
+    """Run the repository's own tests under the external tracing plugin; every Document.save they make becomes a
+    two-event PackageTrace trace (belief = what the document answered just before the call)."""
+    import subprocess
+
+    fd, path = tempfile.mkstemp(prefix="verif_harvest_pkg_", suffix=".ndjson")
+    os.close(fd)
+    try:
+        env = dict(os.environ, ODFDO_VERIF="1", ODFDO_VERIF_PKG="1", ODFDO_VERIF_TRACE=path,
+                   PYTHONPATH=str(Path(__file__).resolve().parent.parent) + os.pathsep + str(REPO / "src"))
+        have = [p for p in paths if (REPO / p).exists()]
+        r = subprocess.run(["/venv/bin/python", "-m", "pytest", "-q", "-p", "no:cacheprovider", "-p", "harness.pytest_trace_plugin", *have],
+                           cwd=REPO, env=env, capture_output=True, text=True, timeout=timeout)
+        traces, tests = [], []
+        skipped = 0
+        for line in Path(path).read_text().splitlines():
+            try:
+                ev = json.loads(line)
+            except ValueError:
+                continue
+            if ev.get("kind") == "pkg":
+                o = ev["trace"][0]
+                listed = {p for p in o["mf"] if p != "/" and not p.endswith("/")}
+                held = {n for n, v in o["mem"].items() if v["s"] != 0 and n != "mimetype"}
+                if listed != held:
+                    skipped += 1      # the test built a package whose manifest does not describe it: outside the properties' alphabet
+                    continue
+                traces.append(ev["trace"])
+                tests.append(ev["test"])
+        return r.returncode, traces, tests, f"skipped_inconsistent_prestate={skipped} " + r.stdout[-200:]
+    finally:
+        Path(path).unlink(missing_ok=True)
